@@ -11,14 +11,17 @@ C20 (second half) — provider bank: model of `forml/provider/__init__.py`.
   Bank.Path.load (`__import__(v, fromlist=['*'])`) ↦ `loadPath`    (package `__init__`, then the module, for a package
                                                                     its `__all__` sub-modules; ModuleNotFoundError ignored
                                                                     unless explicit → MissingError)
-  Bank.get                                   ↦ `get`               (`[*self.paths, *reference.paths(self.paths)]`, `pop()`
-                                                                    from the end until the reference is registered)
+  Bank.get                                   ↦ `get`               (`base = sorted(self.paths)`, `[*base, *reference.paths(base)]`,
+                                                                    `pop()` from the end until the reference is registered)
   Meta.__getitem__                           ↦ `get` result        (KeyError → MissingError)
 
 The iteration order of the `set` `self.paths` is not determined by the program (string hashes, PYTHONHASHSEED): it is
-an explicit parameter `order` of `get` (a permutation of the bank's path values).  Names (packages, sub-modules,
-aliases, qualnames) are naturals; a sub-module name and an alias with the same spelling are the same number, because
-`Alias.paths` builds the module name `<path>.<alias>`.  Core Lean only.
+an explicit parameter `order` of `get` (a permutation of the bank's path values).  `Bank.get` (repaired code, fix
+C20-sorted-search-paths) sorts what it iterates, so that the parameter provably does not matter (`C20_lookup_order_free`).
+Names (packages, sub-modules, aliases, qualnames) are naturals numbered by the harness in the order of the strings, so
+that the order of `Mod` below is Python's order of the dotted module names ('.' sorts before every identifier
+character); a sub-module name and an alias with the same spelling are the same number, because `Alias.paths` builds
+the module name `<path>.<alias>`.  Core Lean only.
 -/
 namespace ForML.Bank
 
@@ -219,10 +222,9 @@ def getLoop (w : World) (iface : ClassId) (r : Ref) (st : St) : List PathE → S
 def arrange (paths : List PathE) (order : List Mod) : List PathE :=
   order.filterMap (fun m => paths.find? (fun e => e.mod = m))
 
-/-- `order` lists exactly the bank's path values (each once) -/
+/-- `order` is an iteration order of the set: it arranges the bank's paths into a permutation of them -/
 def validOrder (paths : List PathE) (order : List Mod) : Bool :=
-  order.length == paths.length && paths.all (fun e => order.contains e.mod) &&
-    order.all (fun m => paths.any (fun e => e.mod = m))
+  order.length == paths.length && (arrange paths order).isPerm paths
 
 /-- outcome of `Service[reference]` -/
 inductive Res where
@@ -230,9 +232,27 @@ inductive Res where
   | error : Err → Res
   deriving DecidableEq, Repr
 
-/-- the list `[*self.paths, *reference.paths(self.paths)]` in `pop()` order -/
+/-- `str.__lt__`/`__le__` on dotted names of at most two components: `pkg` < `pkg.sub` < `pkg'` for `pkg < pkg'` -/
+def Mod.le (a b : Mod) : Bool :=
+  a.pkg < b.pkg || (a.pkg == b.pkg && (match a.sub, b.sub with
+    | none, _ => true
+    | some _, none => false
+    | some x, some y => x ≤ y))
+
+/-- tuple order of `Bank.Path(value, explicit)` (a NamedTuple: `<` is the tuple's, `False < True`) -/
+def PathE.le (a b : PathE) : Bool :=
+  if a.mod = b.mod then (!a.explicit || b.explicit) else a.mod.le b.mod
+
+def insertPath (p : PathE) : List PathE → List PathE
+  | [] => [p]
+  | q :: rest => if p.le q then p :: q :: rest else q :: insertPath p rest
+
+/-- `sorted(self.paths)` (insertion sort: structural recursion, so that `decide` can evaluate it) -/
+def sortPaths (ps : List PathE) : List PathE := ps.foldr insertPath []
+
+/-- the list `[*base, *reference.paths(base)]` with `base = sorted(self.paths)` in `pop()` order -/
 def todoPaths (bank : Bank) (r : Ref) (order : List Mod) : List PathE :=
-  let base := arrange bank.paths order
+  let base := sortPaths (arrange bank.paths order)
   (base ++ refPaths r base).reverse
 
 /-- `return self.provider[reference]` after the loop; KeyError → MissingError in `Meta.__getitem__` -/
